@@ -347,6 +347,112 @@ pub fn check_dyn(c: &DynCase) -> Verdict {
 
 /// scripted targets on documents with xsi:nil attributes, namespace (re)declarations, skipped
 /// subtrees (c14::nil_template), mutated
+/// arbitrary BYTES through from_reader: documents that declare other encodings (honoured when the
+/// `encoding` feature is on), byte-order marks of all kinds, bytes that are not UTF-8
+#[derive(Clone, Debug, Serialize, Deserialize, PartialEq)]
+pub struct BytesCase {
+    pub target: Target,
+    pub bytes: crate::engine::B,
+    /// `Some` = a scripted target (derived from the undamaged document) instead of `target`
+    pub script: Option<crate::dynde::Script>,
+}
+
+pub fn check_bytes(c: &BytesCase) -> Verdict {
+    use crate::dynde;
+    let bytes = &c.bytes.0;
+    SEQ_BUDGET.with(|b| b.set(bytes.len() + 16));
+    SEQ_OVERRUN.with(|f| f.set(false));
+    let ok = match &c.script {
+        None => {
+            let r = try_de_bytes(&c.target, bytes);
+            if r.is_err() && SEQ_OVERRUN.with(|f| f.get()) {
+                return Verdict::fail(format!("a sequence/map yielded more items than the input has bytes ({}): deserialization does not terminate | target {:?} | input {:?}", bytes.len(), c.target, crate::engine::B::show(bytes)));
+            }
+            r.is_ok()
+        }
+        Some(script) => {
+            dynde::set_budget((bytes.len() + 16) * (script.depth() + 2) * 4);
+            let r = std::panic::catch_unwind(std::panic::AssertUnwindSafe(|| dynde::from_reader(script, std::io::BufReader::with_capacity(5, &bytes[..]))));
+            match r {
+                Ok(r) => {
+                    if dynde::overrun() {
+                        return Verdict::fail(format!("the scripted visitor ran out of its step budget on {} bytes: deserialization does not terminate | script {:?} | input {:?}", bytes.len(), script, crate::engine::B::show(bytes)));
+                    }
+                    r.is_ok()
+                }
+                Err(p) => {
+                    let msg = crate::engine::panic_message(&p);
+                    if is_f10_panic(&msg, script) {
+                        let mut v = Verdict::pass(true);
+                        v.known.push("F10-undrained-map-access-end-event-unreachable");
+                        return v;
+                    }
+                    return Verdict::fail(format!("panic: {} | script {:?} | input {:?}", msg, script, crate::engine::B::show(bytes)));
+                }
+            }
+        }
+    };
+    let mut v = Verdict::pass(true).class("bytes-through-from_reader");
+    v.classes.push(if ok { "returned-ok" } else { "returned-err" });
+    if std::str::from_utf8(bytes).is_err() {
+        v.classes.push("input-is-not-utf8");
+    }
+    if bytes.windows(9).any(|w| w.eq_ignore_ascii_case(b"encoding=")) {
+        v.classes.push("declares-an-encoding");
+    }
+    v
+}
+
+pub const ENCODING_LABELS: &[&str] = &["utf-16", "UTF-16LE", "UTF-16BE", "shift_jis", "windows-1251", "iso-2022-jp", "euc-kr", "gb18030", "big5", "x-user-defined", "iso-8859-1", "bogus-encoding", "utf-8", "UTF-8", ""];
+
+pub fn bytes_case_strategy() -> BoxedStrategy<BytesCase> {
+    (any_val(), opts_strategy(), prop::collection::vec(edit_strategy(), 0..3), target_strategy(), 0u8..4, any::<u16>(), prop::collection::vec((any::<u16>(), any::<u8>(), 0u8..4), 0..4), prop::option::weighted(0.4, prop::collection::vec(any::<u8>(), 0..40)), prop::collection::vec((any::<u16>(), any::<u16>()), 0..3))
+        .prop_map(|(val, opts, edits, other, pick, enc, byte_edits, choices, noise)| {
+            let mut doc = val.serialize_with(&opts).unwrap_or_else(|_| "<r/>".to_string());
+            let target = if pick == 0 { other } else { Target::Fam(val.ty()) };
+            if !matches!(target, Target::Fam(_)) && enc % 4 != 0 {
+                doc = EXTRA_DOCS[scale(enc, EXTRA_DOCS.len())].to_string();
+            }
+            // blank-led text, comments, CDATA between tokens: merged and trimmed text paths
+            for (at, what) in &noise {
+                let toks = crate::refxml::lex(doc.as_bytes());
+                if toks.len() < 2 {
+                    break;
+                }
+                let k = 1 + scale(*at, toks.len() - 1);
+                let pos = toks.get(k).map_or(doc.len(), |l| l.start);
+                if doc.is_char_boundary(pos) {
+                    doc.insert_str(pos, super::c14::NOISE[scale(*what, super::c14::NOISE.len())]);
+                }
+            }
+            let script = choices.map(|ch| crate::dynde::script_from_doc(&doc, &ch));
+            let doc = apply_edits(&doc, &edits);
+            let label = ENCODING_LABELS[scale(enc, ENCODING_LABELS.len())];
+            let mut bytes: Vec<u8> = if label.is_empty() { vec![] } else { format!("<?xml version=\"1.0\" encoding=\"{}\"?>", label).into_bytes() };
+            bytes.extend_from_slice(doc.as_bytes());
+            for (at, b, kind) in &byte_edits {
+                let k = scale(*at, bytes.len() + 1);
+                match kind {
+                    0 => bytes.insert(k, *b | 0x80),
+                    1 if k < bytes.len() => bytes[k] = *b,
+                    2 => {
+                        // a byte-order mark / signature at the front
+                        let sig: &[u8] = [&[0xEFu8, 0xBB, 0xBF][..], &[0xFE, 0xFF], &[0xFF, 0xFE], &[0x3C, 0x00, 0x3F, 0x00], &[0x00, 0x3C, 0x00, 0x3F]][(*b % 5) as usize];
+                        let mut v = sig.to_vec();
+                        v.extend_from_slice(&bytes);
+                        bytes = v;
+                    }
+                    _ if k < bytes.len() => {
+                        bytes.remove(k);
+                    }
+                    _ => {}
+                }
+            }
+            BytesCase { target, bytes: crate::engine::B(bytes), script }
+        })
+        .boxed()
+}
+
 pub fn dyn_nil_strategy() -> BoxedStrategy<DynCase> {
     (prop::collection::vec((0u8..2, any::<u16>(), any::<u16>(), any::<u16>()), 1..6), any::<u16>(), prop::collection::vec(any::<u8>(), 0..48), prop::collection::vec(edit_strategy(), 0..3), prop::option::of(prop::collection::vec(0usize..300, 0..6)))
         .prop_map(|(items, rootsel, choices, edits, cuts)| {
@@ -395,10 +501,19 @@ pub fn info() -> PropInfo {
 }
 
 pub fn try_de(t: &Target, xml: &str, via_reader: bool) -> Result<(), String> {
+    try_de_impl(t, xml, xml.as_bytes(), via_reader)
+}
+
+/// from_reader over arbitrary bytes (not necessarily UTF-8, any declared encoding)
+pub fn try_de_bytes(t: &Target, bytes: &[u8]) -> Result<(), String> {
+    try_de_impl(t, "", bytes, true)
+}
+
+fn try_de_impl(t: &Target, xml: &str, bytes: &[u8], via_reader: bool) -> Result<(), String> {
     macro_rules! go {
         ($ty:ty) => {
             if via_reader {
-                quick_xml::de::from_reader::<_, $ty>(std::io::BufReader::with_capacity(3, xml.as_bytes())).map(|_| ()).map_err(|e| e.to_string())
+                quick_xml::de::from_reader::<_, $ty>(std::io::BufReader::with_capacity(3, bytes)).map(|_| ()).map_err(|e| e.to_string())
             } else {
                 quick_xml::de::from_str::<$ty>(xml).map(|_| ()).map_err(|e| e.to_string())
             }
@@ -407,7 +522,7 @@ pub fn try_de(t: &Target, xml: &str, via_reader: bool) -> Result<(), String> {
     match t {
         Target::Fam(ty) => {
             if via_reader {
-                ty.from_reader(std::io::BufReader::with_capacity(3, xml.as_bytes())).map(|_| ()).map_err(|e| e.to_string())
+                ty.from_reader(std::io::BufReader::with_capacity(3, bytes)).map(|_| ()).map_err(|e| e.to_string())
             } else {
                 ty.from_str(xml).map(|_| ()).map_err(|e| e.to_string())
             }
@@ -524,7 +639,7 @@ pub const VOCAB: &[&str] = &[
     "<h>", "<f>", "<Num>", "<Nested a=\"\">", "<S>", "<C y=\"true\">", "<N a=\"\">", "<i8_>", "<f64_>", "<k>", "</k>",
     "t", " ", "1", "true", "false", "Red", "dark-blue", "x y", "-1", "1e400", "256", "\n  ", "\u{e9}",
     "<![CDATA[c]]>", "<![CDATA[]]>", "<![CDATA[ ]]>", "<![CDATA[<a>]]>", "<!--c-->", "<!---->", "<!DOCTYPE x>", "<!DOCTYPE x [<!ENTITY e \"v\">]>", "<!DOCTYPE x [<!ENTITY e '<a>'>]>", "<!DOCTYPE>", "<!doctype y>", "<?pi?>", "<?pi d?>", "<?xml version=\"1.0\"?>",
-    "<?xml version=\"1.0\" encoding=\"utf-8\"?>", "&amp;", "&lt;", "&#65;", "&#x20;", "&e;", "&unknown;", "&#0;", "&", "&;", "&#;",
+    "<?xml version=\"1.0\" encoding=\"utf-8\"?>", "<?xml version=\"1.0\" encoding=\"utf-16\"?>", "<?xml version='1.0' encoding='windows-1251'?>", "<?xml version='1.0' encoding='shift_jis'?>", "&amp;", "&lt;", "&#65;", "&#x20;", "&e;", "&unknown;", "&#0;", "&", "&;", "&#;",
     "<a xsi:nil=\"true\">", "<opt xsi:nil=\"true\" xmlns:xsi=\"http://www.w3.org/2001/XMLSchema-instance\">", "<a xsi:nil=\"false\"/>", "<a nil=\"true\">", "<inner xsi:nil=\"1\" a=\"\">", "<item xsi:nil='true'/>", "<root xsi:nil=\"true\">",
     "<a k=\"1\" k=\"2\">", "<a k=1>", "<a k>", "<a k=\"1>", "<a =1>", "<a a=\"1\" a=\"2\"/>", "<a k=\"&unknown;\">", "<a k=\"&lt;\" j='&#65;'>", "<inner a=\"1\" a=\"2\">", "<a xmlns=\"u\">", "<p:a xmlns:p=\"u\">", "</p:a>",
     "</>", "<>", "</zzz>", "<", ">", "/>", "<a", "</a", "<!", "<!-", "<![", "<![CDATA[", "]]>", "-->", "?>", "\u{feff}",
@@ -601,6 +716,7 @@ pub fn edit_strategy() -> impl Strategy<Value = Edit> {
 fn run(ctx: &Ctx) {
     ctx.run_regress::<Case, _>(check);
     ctx.run_regress::<DynCase, _>(check_dyn);
+    ctx.run_regress::<BytesCase, _>(check_bytes);
     // (a) mutated valid documents
     let mutated = || {
         Box::new((any_val(), opts_strategy(), prop::collection::vec(edit_strategy(), 1..5), target_strategy(), 0u8..4, any::<bool>(), any::<u16>()).prop_map(|(val, opts, edits, other, pick, via_reader, extra)| {
@@ -670,6 +786,7 @@ fn run(ctx: &Ctx) {
     ctx.run_proptest_with("scripted-targets-x-mutated-documents", ctx.tier.pick(1_500_000, 12_000_000), || Box::new(dyn_case_strategy(false)), check_dyn);
     ctx.run_proptest_with("scripted-targets-x-token-soup", ctx.tier.pick(500_000, 4_000_000), || Box::new(dyn_case_strategy(true)), check_dyn);
     ctx.run_proptest_with("scripted-targets-x-nil-documents", ctx.tier.pick(400_000, 3_000_000), || Box::new(dyn_nil_strategy()), check_dyn);
+    ctx.run_proptest_with("bytes-with-declared-encodings-through-from_reader", ctx.tier.pick(1_000_000, 8_000_000), || Box::new(bytes_case_strategy()), check_bytes);
     let special: Vec<&str> = VOCAB.iter().copied().filter(|w| w.starts_with("<!") || w.starts_with("<?") || w.starts_with('&') || w.contains("nil") || *w == "</>" || *w == "<>" || w.starts_with("<![")).collect();
     ctx.run_groups(
         "one-special-token-at-every-boundary",
@@ -693,6 +810,10 @@ fn run(ctx: &Ctx) {
 }
 
 fn replay(_stage: &str, case: &Value) -> Result<Verdict, String> {
+    if case.get("bytes").is_some() {
+        let c: BytesCase = serde_json::from_value(case.clone()).map_err(|e| e.to_string())?;
+        return Ok(check_bytes(&c));
+    }
     if case.get("script").is_some() {
         let c: DynCase = serde_json::from_value(case.clone()).map_err(|e| e.to_string())?;
         return Ok(check_dyn(&c));
